@@ -32,6 +32,24 @@ from ..x_sites import method_calls
 from ..x_flow import expand_locals
 from ..x_peval import STOP, UNK, make_resolver, pure_self_methods, peval, pfold, prep, partition, predicates_on, try_fold
 
+from ..x_http import norm_func
+
+# private helpers that the rules model by name (sanitisers / summarised effects) and therefore must stay calls
+KEEP_CALLS = {"_format_chunk", "_convert_header_value", "_clear_representation_headers", "_can_keep_alive", "_compressible_type",
+              "_on_write_complete", "_finish_request", "_clear_callbacks"}
+
+
+def F(ck, relpath, qualname):
+    """The anchored function with its private same-file helpers inlined (function splitting is followed, depth 3)."""
+    fi = ck.func(relpath, qualname)
+    try:
+        return norm_func(ck.repo, fi, depth=3, no_inline=KEEP_CALLS)
+    except AnalysisError:
+        raise
+    except Exception as e:  # the normaliser must never turn into a verdict
+        raise AnalysisError("cannot normalise %s: %r" % (qualname, e))
+
+
 TECHNIQUE = "partial evaluation of the CFG over the partitioned (version, method, status, Content-Length, disconnect) space + guard-dominance/typestate on the length guard"
 EXPLANATION = (
     "HTTP1Connection.write_headers (server branch) is partially evaluated for every valuation of request version, method, "
@@ -180,8 +198,8 @@ def keepalive_precondition(ck) -> bool:
     version == HTTP/1.0 is ``False`` or ``<Connection header> == 'keep-alive'``,
     and _read_message sets the flag to ``not _can_keep_alive(..)``."""
     try:
-        cka = ck.func(H1, CONN + "._can_keep_alive")
-        rm = ck.func(H1, CONN + "._read_message")
+        cka = F(ck, H1, CONN + "._can_keep_alive")
+        rm = F(ck, H1, CONN + "._read_message")
     except AnalysisError:
         return False
     ps = [p for p in cka.params() if p != "self"]
@@ -211,7 +229,7 @@ def keepalive_precondition(ck) -> bool:
 
 
 def check_write_headers(ck):
-    fi = ck.func(H1, CONN + ".write_headers")
+    fi = F(ck, H1, CONN + ".write_headers")
     ps = fi.params()
     if len(ps) < 4 or ps[0] != "self":
         raise AnalysisError("write_headers signature changed: %s" % ps)
@@ -409,7 +427,7 @@ def check_format_chunk(ck):
     reference one.  Chunk of 26 bytes distinguishes hex ("1a") from decimal."""
     import re as _re
 
-    fi = ck.func(H1, CONN + "._format_chunk")
+    fi = F(ck, H1, CONN + "._format_chunk")
     ps = fi.params()
     if len(ps) != 2:
         raise AnalysisError("_format_chunk signature changed: %s" % ps)
@@ -515,7 +533,7 @@ def check_fixed_writes(ck):
     an interim 1xx must not follow a response that was already completed, and
     server-only status lines must not be written in client mode.  Otherwise the
     byte stream is no longer 'exactly one response' per request."""
-    fi = ck.func(H1, CONN + "._read_message")
+    fi = F(ck, H1, CONN + "._read_message")
     facts = must_facts(fi.cfg)
     n = 0
     for node, c in call_sites(fi, "self.stream.write"):
@@ -558,7 +576,7 @@ CLOSED = "self.stream.closed()"
 def check_conn_finish(ck):
     """Exhaustive concrete evaluation of HTTP1Connection.finish over
     (expected remaining, stream closed, chunking)."""
-    fi = ck.func(H1, CONN + ".finish")
+    fi = F(ck, H1, CONN + ".finish")
     cfg = fi.cfg
     resolver = make_resolver(ck.repo, H1, CONN)
     known = {m: None for m in pure_self_methods(ck.repo, H1, CONN)}
@@ -644,7 +662,7 @@ def _handler_effects(ck):
     need_writes("check_etag_header", set())
     need_writes("_clear_representation_headers", {"_headers"})
     need_writes("write", {"_write_buffer", "_headers"})
-    crh = ck.func(WEB, RH + "._clear_representation_headers")
+    crh = F(ck, WEB, RH + "._clear_representation_headers")
     cleared = set(q.literal_strs(crh.node))
 
     def set_header(env, c):
@@ -717,11 +735,11 @@ def _buffer_length_expr(fi, e, depth=2) -> bool:
 
 
 def check_handler_finish(ck):
-    fi = ck.func(WEB, RH + ".finish")
+    fi = F(ck, WEB, RH + ".finish")
     ps = fi.params()
     chunk = ps[1] if len(ps) > 1 else None
     effects, cleared = _handler_effects(ck)
-    ck.ob("C02.finish-bodiless", ck.func(WEB, RH + "._clear_representation_headers"), None, "Content-Length" not in cleared and "Transfer-Encoding" not in cleared,
+    ck.ob("C02.finish-bodiless", F(ck, WEB, RH + "._clear_representation_headers"), None, "Content-Length" not in cleared and "Transfer-Encoding" not in cleared,
           "_clear_representation_headers does not remove framing headers", construct="framing header cleared")
     code_paths = [SC]
     classes = []
@@ -805,7 +823,7 @@ def check_finish_order(ck):
     """finish(chunk): the final chunk is buffered before anything is computed
     from the buffer (ETag, Content-Length) and before the flush; the connection
     is told the response is complete on every path after the flush."""
-    fi = ck.func(WEB, RH + ".finish")
+    fi = F(ck, WEB, RH + ".finish")
     ps = fi.params()
     if len(ps) < 2:
         raise AnalysisError("RequestHandler.finish lost its chunk parameter")
@@ -871,7 +889,7 @@ def _resets_buffer(n):
 def check_buffer_consumed(ck):
     """flush(): what is sent comes from the write buffer, and the buffer is emptied
     (before the data is handed on) on every path, so a chunk is sent exactly once."""
-    fi = ck.func(WEB, RH + ".flush")
+    fi = F(ck, WEB, RH + ".flush")
     cfg = fi.cfg
     facts = event_facts(fi, {"reset": _resets_buffer}, cond_facts=False)
     derived = tainted_names(fi, [WB])
@@ -891,6 +909,34 @@ def check_buffer_consumed(ck):
     ck.ob("C02.buffer-consumed", fi, fi.node, k >= 1, "flush reads the write buffer", construct="flush does not read the write buffer")
 
 
+def check_error_reset(ck):
+    """An error response replaces what the handler had prepared: ``clear()`` must
+    drop the unflushed output and reset status/headers on every path, and
+    ``send_error`` must call it before it builds the error response (when the
+    headers are not out yet).  Otherwise 'its error response' would carry stale
+    body bytes / headers of the abandoned response."""
+    cl = F(ck, WEB, RH + ".clear")
+    cfg = cl.cfg
+    is_fresh_headers = lambda n: n.kind == "stmt" and isinstance(n.ast, (ast.Assign, ast.AnnAssign)) and HDRS in q.assigned_paths(n.ast) and isinstance(n.ast.value, ast.Call) and q.call_attr(n.ast.value) == "HTTPHeaders"
+    is_status_reset = lambda n: n.kind == "stmt" and isinstance(n.ast, (ast.Assign, ast.AnnAssign)) and SC in q.assigned_paths(n.ast) and isinstance(n.ast.value, ast.Constant) and n.ast.value.value == 200
+    facts = event_facts(cl, {"buffer": _resets_buffer, "headers": is_fresh_headers, "status": is_status_reset}, cond_facts=False)
+    at_exit = facts[cfg.exit.id]
+    ck.ob("C02.error-reset", cl, cl.node, ("@buffer", True) in at_exit, "clear() empties the write buffer on every path (unflushed output of the abandoned response is discarded)", construct="clear() keeps the write buffer")
+    ck.ob("C02.error-reset", cl, cl.node, ("@headers", True) in at_exit, "clear() replaces the header set on every path", construct="clear() keeps the headers")
+    ck.ob("C02.error-reset", cl, cl.node, ("@status", True) in at_exit, "clear() resets the status code to 200 on every path", construct="clear() keeps the status")
+    se = F(ck, WEB, RH + ".send_error")
+    clears = {n.id for n, _c in call_sites(se, "self.clear")}
+    builds = se.cfg.stmt_nodes(lambda n: n.kind in ("stmt", "test") and n.ast is not None and any(q.is_call(c, "self.set_status", "self.write_error") for c in q.calls(n.ast)))
+    if not builds:
+        raise AnalysisError("send_error: set_status/write_error call sites not found")
+    f2 = event_facts(se, {"cleared": lambda n: n.id in clears}, cond_facts=False)
+    for b in builds:
+        ck.ob("C02.error-reset", se, b.ast, ("@cleared", True) in f2[b.id], "send_error discards the prepared response (clear()) before it builds the error response")
+    # the handler starts from the same clean state: __init__ goes through clear()
+    init = F(ck, WEB, RH + ".__init__")
+    ck.ob("C02.error-reset", init, init.node, len(call_sites(init, "self.clear")) >= 1 or bool(q.stores_to(init.node, WB)), "a new handler starts with an empty write buffer", construct="__init__ does not initialise the response state")
+
+
 # ---------------------------------------------------------------------------
 # F. RequestHandler.flush
 
@@ -898,7 +944,7 @@ CONNECTION = "self.request.connection"
 
 
 def check_handler_flush(ck):
-    fi = ck.func(WEB, RH + ".flush")
+    fi = F(ck, WEB, RH + ".flush")
     effects, _ = _handler_effects(ck)
     wh_calls = method_calls(fi, "write_headers", CONNECTION)
     w_calls = method_calls(fi, "write", CONNECTION)
@@ -964,6 +1010,7 @@ def run(ck):
     ck.rule("C02.finish-bodiless", "RequestHandler.finish: for 1xx/204/304 no Content-Length is computed and the buffer is empty (cleared when finish substitutes 304)")
     ck.rule("C02.finish-order", "RequestHandler.finish buffers its chunk before the buffer is hashed/measured/flushed, and completes the connection exactly once after the flush")
     ck.rule("C02.buffer-consumed", "RequestHandler.flush removes from the write buffer what it sends")
+    ck.rule("C02.error-reset", "clear() drops the unflushed output and resets headers/status on every path; send_error calls it before building the error response")
     ck.rule("C02.headers-once", "RequestHandler.flush: the header block is emitted exactly once, with _headers_written set before; later flushes write body only")
     ck.rule("C02.head-discard", "RequestHandler.flush: for HEAD the chunk is emptied on both branches")
     check_write_headers(ck)
@@ -974,6 +1021,7 @@ def run(ck):
     check_handler_finish(ck)
     check_finish_order(ck)
     check_buffer_consumed(ck)
+    check_error_reset(ck)
     check_handler_flush(ck)
 
 
@@ -1040,6 +1088,9 @@ MUTANTS = [
     ("finish: connection.finish() only when something was buffered", _in(WEB, RH + ".finish", replace_stmt(lambda st: isinstance(st, ast.Expr) and _u(st) == "self.request.connection.finish()", lambda st: [ast.If(test=parse_expr("future is not None and chunk is not None"), body=[st], orelse=[])])), "C02.finish-order"),
     ("flush keeps the flushed chunks in the buffer", _in(WEB, RH + ".flush", remove_stmts(lambda st: isinstance(st, ast.Assign) and WB in q.assigned_paths(st))), "C02.buffer-consumed"),
     ("flush empties the buffer before reading it", _in(WEB, RH + ".flush", lambda root: _swap_join_reset(root)), "C02.buffer-consumed"),
+    ("write buffer initialised in __init__ instead of clear() (seeded C02-adv3)", lambda repo: mutate(mutate(repo, WEB, RH + ".clear", remove_stmts(lambda st: isinstance(st, (ast.Assign, ast.AnnAssign)) and WB in q.assigned_paths(st))), WEB, RH + ".__init__", replace_stmt(lambda st: _u(st) == "self.clear()", lambda st: [parse_stmt("self._write_buffer = []"), st])), "C02.error-reset"),
+    ("send_error keeps the prepared response (no clear())", _in(WEB, RH + ".send_error", remove_stmts(lambda st: _u(st) == "self.clear()")), "C02.error-reset"),
+    ("clear() keeps the old headers when a status was set", _in(WEB, RH + ".clear", replace_stmt(lambda st: isinstance(st, ast.Assign) and HDRS in q.assigned_paths(st), lambda st: [ast.If(test=parse_expr("getattr(self, '_status_code', 200) == 200"), body=[st], orelse=[])])), "C02.error-reset"),
     ("flush: HEAD chunk not discarded on first flush", _in(WEB, RH + ".flush", remove_stmts(lambda st: isinstance(st, ast.If) and "HEAD" in _u(st.test) and len(st.body) == 1 and isinstance(st.body[0], ast.Assign))), "C02.head-discard"),
     ("flush: HEAD chunk written on later flushes", _in(WEB, RH + ".flush", replace_expr(lambda n: _is_cmp(n, ast.NotEq, "HEAD"), TRUE)), ("C02.head-discard", "C02.headers-once")),
     ("flush: _headers_written never set", _in(WEB, RH + ".flush", remove_stmts(lambda st: isinstance(st, ast.Assign) and HW in q.assigned_paths(st))), "C02.headers-once"),
